@@ -237,6 +237,9 @@ class JsonResource(Resource):
 
         if self.use_uuid:
             self.uuid_dict[d['uuid']] = inst
+            # (the object keeps the id it was read with, as an XMI load does:
+            # another file may refer to it by that id after the next save)
+            inst._internal_id = d['uuid']
 
         eattributes = []
         containments = []
